@@ -291,8 +291,9 @@ def main(run, tier):
     run.trust('ply.lex contract (read off ply/lex.py): token() skips a maximal run of lexignore characters, returns the first '
               'matching alternative of the master regex with value = lexdata[lexpos:lexpos+len(value)], advances lexpos past it; '
               'lineno is only changed by user code', 'Python `re` engine', 'unicodedata (Unicode %s) for the ES5 classes' % sets['unicode_version'])
-    run.assume('Lexer._update_newline_idx (regex split + zip idiom) is outside the E1 subset: its regex is decided exhaustively '
-               '(regex.line_terminator_split) and the bookkeeping is bounded only (rt.tokens)',
+    run.assume('Lexer._update_newline_idx is under contract through models of `PATTERN.split` with one group (pieces and separators '
+               'alternate) and of `zip(*[iter(xs)] * 2)` (consecutive pairs): for any number of line terminator sequences the line '
+               'counter and the recorded line starts are exact; the pattern itself is decided exhaustively (regex.line_terminator_split)',
                'identifier character classes are compared with ES5 under property C03, not here')
 
 
